@@ -142,7 +142,7 @@ func shiftBands(v, ord, B *big.Int) map[string]*big.Int {
 func runC01(r *mon.Run) {
 	r.Assume("value-comparing families use keys with Ln>=384 so that x and x+ord(QR_n) are not two in-range representations of one exponent")
 	r.Assume("attribute equality is taken after the scheme's own hashing rule (values longer than Lm bits are signed as their SHA-256 digest)")
-	keys := []string{"toy512a", "fix1024a"}
+	keys := []string{"toy512a", "toy384a", "fix1024a"} // toy384a: ord(QR_n) < 2^l_e-commit, so that e-responses shifted by multiples of the order reach the bands around the bound
 	if r.Thorough() {
 		keys = []string{"toy512a", "toy384a", "toy512b", "toy512z", "fix1024a", "fix1024b", "fix2048a"}
 	}
